@@ -4,6 +4,7 @@ import (
 	"flag"
 	"fmt"
 	"os"
+	"runtime/pprof"
 )
 
 var instFilter string
@@ -26,10 +27,18 @@ func main() {
 		only := fs.String("harness", "", "only this harness name")
 		debug := fs.Bool("debug", false, "debug")
 		filter := fs.String("filter", "", "only instances whose parameter list contains this string")
+		cpuprof := fs.String("cpuprofile", "", "write a CPU profile")
 		noReplay := fs.Bool("noreplay", false, "skip native replay")
 		fs.Parse(os.Args[2:])
 		instFilter = *filter
-		os.Exit(runProp(*prop, *tier, *repo, *verif, *workers, *seed, *solver, *only, *debug, *noReplay))
+		if *cpuprof != "" {
+			f, _ := os.Create(*cpuprof)
+			pprof.StartCPUProfile(f)
+			defer pprof.StopCPUProfile()
+		}
+		rc := runProp(*prop, *tier, *repo, *verif, *workers, *seed, *solver, *only, *debug, *noReplay)
+		pprof.StopCPUProfile()
+		os.Exit(rc)
 	case "replay":
 		fs := flag.NewFlagSet("replay", flag.ExitOnError)
 		repo := fs.String("repo", "/repo", "repository")
